@@ -2,13 +2,18 @@ import Driver.Util
 import Sqfs.Model.Obj
 import Sqfs.Model.ObjKinds
 import Sqfs.Model.C19Readers
+import Sqfs.Model.RbTree
+import Sqfs.Model.C19Units
 /-!
 `sqfsmodel c19 describe <kind>` / `describe-current <kind>`: the per-kind facts of the hook descriptions.
 `sqfsmodel c19 sim` / `sim-current`: heap simulation of the same scenario scripts as `harness/h_c19.c`
 (control lines `copy`, `failcopy k`, `drop x`, `grab x`, `ungrab x`, `dropenv`, `rcs`; every other `<target> …`
 line is an operation that dereferences the target's buffers), printing the same control-line answers.
 `sqfsmodel c19 tbl`: the state-machine models of `Sqfs.Model.ObjKinds`.
-`sqfsmodel c19 copystate`: `Sqfs.C19R.drCopy` / `mrCopy` (and the cache invariant) on states dumped from the real objects.
+`sqfsmodel c19 copystate`: `Sqfs.C19R.drCopy` / `mrCopy` (and the cache invariant) on states dumped from the real objects;
+for a directory reader `Sqfs.Rb.rbCopy` on the dumped cache tree (every node byte) and `dcResolve` on the result.
+`sqfsmodel c19 unit`: the generic containers as units (`rbt <ks> <vs>`, `arr <size>`, `strt` scenarios of `harness/h_c19.c`):
+`Sqfs.Rb` (insert, lookup, `rbCopy` through a node store), `Sqfs.C19U` (array, string table); every answer predicted.
 -/
 namespace Driver.C19
 open Sqfs.Obj
@@ -248,6 +253,10 @@ def stepLive (D : Kind → CopyDesc) (w : World) (line : String) : World × Stri
       | some cr => cr.name
       | none => if liveCount h = 0 then "ok" else "leak"
     (World.init, s!"exit {cls}")
+  | "f" :: _ :: _ =>
+    -- a directory reader created for one question and released straight afterwards (`copy_then_release_restores`-style:
+    -- construct + drop leaves the heap as it was); refuses like the harness when the user's file/compressor are gone
+    (w, if w.envAlive then "fresh" else "no-object")
   | t :: op :: rest =>
     match (targetIx t).bind w.obj with
     | some id =>
@@ -301,6 +310,54 @@ def drLine (name : String) (d : Sqfs.DataReader.DR) : String :=
   s!"dump {name} data bs={d.blockSize} dsz={sz d.dataBlock 0} cur={d.currentBlock} word={d.currentWord} " ++
   s!"fsz={sz d.fragBlock 0} fidx={d.currentFrag} tbl={tbl} dblk={blkTok d.dataBlock} fblk={blkTok d.fragBlock}"
 
+/-! tree values as tokens (`unit`, `copystate` of a directory reader) -/
+
+open Sqfs.Rb Sqfs.C19U Sqfs.Obj.Kinds in
+def treeToks : Tree → List String
+  | .nil => ["x"]
+  | .node l r o red d => s!"{if red then "r" else "b"}{o}:{toHexTok d}" :: (treeToks l ++ treeToks r)
+
+open Sqfs.Rb in
+def treeTok (t : Tree) : String := commaSep (treeToks t)
+
+open Sqfs.Rb in
+/-- inverse of `treeToks`; fuel = number of tokens + 1 -/
+def parseTree : Nat → List String → Option (Tree × List String)
+  | 0, _ => none
+  | _, [] => none
+  | f + 1, tok :: rest =>
+    if tok = "x" then some (.nil, rest) else
+    match tok.splitOn ":" with
+    | [hd, hex] =>
+      let red := hd.startsWith "r"
+      if !(red || hd.startsWith "b") then none else
+      match (hd.drop 1).toString.toNat?, fromHex hex with
+      | some off, some d =>
+        match parseTree f rest with
+        | none => none
+        | some (l, rest1) =>
+          match parseTree f rest1 with
+          | none => none
+          | some (r, rest2) => some (.node l r off red d, rest2)
+      | _, _ => none
+    | _ => none
+
+open Sqfs.Rb in
+def parseTreeTok (s : String) : Option Tree :=
+  let toks := s.splitOn ","
+  match parseTree (toks.length + 1) toks with
+  | some (t, []) => some t
+  | _ => none
+
+open Sqfs.Rb in
+/-- `rbtree_copy` of a tree value the way the code does it: into node memory, `copy_node`, read back -/
+def copyViaStore (c : Cfg) (t : Tree) : Option (Tree × Store × Option Nat × Nat) :=
+  let (st, root) := writeTree Store.empty t
+  let fuel := t.size + 1
+  match rbCopy c fuel st root with
+  | none => none
+  | some (st', root') => (readTree st'.cells fuel root').map fun t' => (t', st', root', fuel)
+
 /-- `*_blk_size` of a NULL cache slot is a stale number that the struct `memcpy` carries over: kept outside `DR` -/
 def copyStep (line : String) : String :=
   match words line with
@@ -327,7 +384,153 @@ def copyStep (line : String) : String :=
       let c := Sqfs.C19R.mrCopy m
       s!"dump c meta start={c.start} limit={c.limit} tag={c.tag} next={c.nextBlock} used={c.dataUsed} off={c.offset} data={toHexTok c.data} inv=1"
     | _, _, _, _, _, _, _ => "bad-op"
+  | "dump" :: _ :: "dir" :: ws =>
+    match kvNat ws "flags", kvNat ws "ks", kvNat ws "kp", kvNat ws "vs", kvGet ws "q", kvGet ws "tree" with
+    | some fl, some ks, some kp, some vs, some q, some tr =>
+      let qs : List Nat := if q = "-" then [] else (q.splitOn ",").filterMap String.toNat?
+      let resTok (f : Nat → Option Nat) : String :=
+        if qs.isEmpty then "-" else commaSep (qs.map fun i => match f i with
+          | some r => s!"{i}:0:{r}"
+          | none => s!"{i}:{Sqfs.Consts.c19ErrNoEntry}:0")
+      if tr = "none" then
+        -- reader without `SQFS_DIR_READER_DOT_ENTRIES`: no cache, `resolve_inum` refuses
+        s!"dump c dir flags={fl} ks={ks} kp={kp} vs={vs} q={q} tree=none res={resTok fun _ => none} inv=1"
+      else
+        let c : Sqfs.Rb.Cfg := ⟨ks, kp, vs⟩
+        match parseTreeTok tr with
+        | none => "bad-op"
+        | some t =>
+          match copyViaStore c t with
+          | none => "bad-op"
+          | some (t', st', root', fuel) =>
+            let inv := Sqfs.Rb.wfTreeB c t && decide (Sqfs.Rb.init 4 8 = some c)
+            s!"dump c dir flags={fl} ks={ks} kp={kp} vs={vs} q={q} tree={treeTok t'} " ++
+            s!"res={resTok fun i => Sqfs.Rb.dcResolve c st'.cells fuel root' i} inv={if inv then 1 else 0}"
+    | _, _, _, _, _, _ => "bad-op"
   | _ => "bad-op"
+
+/-! ### `unit`: rbtree / array / string table scenarios, every answer predicted -/
+
+open Sqfs.Rb Sqfs.C19U Sqfs.Obj.Kinds in
+inductive UObj where
+  | rb (t : Tree)
+  | arr (a : ByteArr)
+  | str (t : StrTable)
+
+open Sqfs.Rb in
+structure UWorld where
+  cfg : Cfg
+  sz : Nat
+  objs : List (Option UObj)     -- o, c
+
+open Sqfs.Rb in
+def UWorld.init : UWorld := ⟨⟨0, 0, 0⟩, 0, [none, none]⟩
+
+def uIx : String → Option Nat
+  | "o" => some 0 | "c" => some 1 | _ => none
+
+open Sqfs.Rb Sqfs.C19U Sqfs.Obj.Kinds Sqfs.Consts in
+def unitStep (w : UWorld) (line : String) : UWorld × String :=
+  let put (i : Nat) (o : UObj) : UWorld := { w with objs := w.objs.set i (some o) }
+  match words line with
+  | ["scenario", _, "rbt", ks, vs] =>
+    match ks.toNat?, vs.toNat? with
+    | some ks, some vs =>
+      match init ks vs with
+      | some c => (⟨c, 0, [some (.rb .nil), none]⟩, "scenario")
+      | none => (UWorld.init, "bad-op")
+    | _, _ => (UWorld.init, "bad-op")
+  | ["scenario", _, "arr", sz] =>
+    match sz.toNat? with
+    | some sz => (⟨⟨0, 0, 0⟩, sz, [some (.arr Arr.empty), none]⟩, "scenario")
+    | none => (UWorld.init, "bad-op")
+  | ["scenario", _, "strt"] => (⟨⟨0, 0, 0⟩, 0, [some (.str []), none]⟩, "scenario")
+  | ["end"] => (UWorld.init, "end")
+  | "copy" :: _ | "failcopy" :: _ =>
+    let k : Option Nat := match words line with
+      | ["failcopy", ks] => ks.toNat?
+      | _ => none
+    match ((w.objs[0]?).join : Option UObj), ((w.objs[1]?).join : Option UObj) with
+    | some (.rb t), none =>
+      -- `copy_node` allocates one node per node, in pre-order: the k-th allocation exists iff k ≤ size
+      if (match k with | some k => decide (1 ≤ k ∧ k ≤ t.size) | none => false) then (w, s!"copy {c19ErrAlloc} zeroed=1") else
+      match copyViaStore w.cfg t with
+      | some (t', _, _, _) => (put 1 (.rb t'), s!"copy 0 kp={w.cfg.keyPad} alias=0")
+      | none => (w, "bad-op")
+    | some (.arr a), none =>
+      -- `array_init` allocates once, and only when there is something to copy
+      if k = some 1 ∧ a.data.length > 0 then (w, s!"copy {c19ErrAlloc} zeroed=1") else
+      let a' := a.initCopy
+      (put 1 (.arr a'), s!"copy 0 size={w.sz} used={a'.data.length} count={a'.count} alias=0")
+    | some (.str t), none =>
+      -- `str_table_copy`: the pointer array (if any), the cloned hash table and its slots, then one bucket per string
+      let allocs := (if t.length > 0 then 1 else 0) + 2 + t.length
+      if (match k with | some k => decide (1 ≤ k ∧ k ≤ allocs) | none => false) then (w, s!"copy {c19ErrAlloc}") else
+      (put 1 (.str (strCopy t)), "copy 0 alias=0")
+    | _, _ => (w, "bad-op")
+  | ["drop", t] =>
+    match uIx t with
+    | some i => ({ w with objs := w.objs.set i none }, "drop")
+    | none => (w, "bad-op")
+  | t :: op :: args =>
+    match uIx t with
+    | none => (w, "bad-op")
+    | some i =>
+      match ((w.objs[i]?).join : Option UObj), op, args with
+      | none, _, _ => (w, "no-object")
+      | some (.rb tr), "ins", [k, v] =>
+        match fromHex k, fromHex v with
+        | some k, some v => (put i (.rb (insert w.cfg (fun a b => memCmp w.cfg a b == .lt) tr k v)), "ins 0")
+        | _, _ => (w, "bad-op")
+      | some (.rb tr), "look", [k] =>
+        match fromHex k with
+        | some k =>
+          match tr.lookup (memCmp w.cfg) k with
+          | some n => (w, s!"look {n.1} {toHexTok n.2} key={toHexTok (keyOf w.cfg n)} value={toHexTok (valueOf w.cfg n)}")
+          | none => (w, "look none")
+        | none => (w, "bad-op")
+      | some (.rb tr), "dump", [] =>
+        (w, s!"dump ks={w.cfg.keySize} kp={w.cfg.keyPad} vs={w.cfg.valueSize} wf={if wfTreeB w.cfg tr then 1 else 0} tree={treeTok tr}")
+      | some (.arr a), "app", [x] =>
+        match fromHex x with
+        | some x => let (a', r) := arrStep w.sz a (.app x); (put i (.arr a'), s!"app {r.1}")
+        | none => (w, "bad-op")
+      | some (.arr a), "get", [n] =>
+        match n.toNat? with
+        | some n => let (_, r) := arrStep w.sz a (.get n); (w, s!"get {match r.2 with | some b => toHexTok b | none => "null"}")
+        | none => (w, "bad-op")
+      | some (.arr a), "set", [n, x] =>
+        match n.toNat?, fromHex x with
+        | some n, some x => let (a', r) := arrStep w.sz a (.set n x); (put i (.arr a'), s!"set {r.1}")
+        | _, _ => (w, "bad-op")
+      | some (.arr a), "used", [] => (w, s!"used {a.data.length}")
+      | some (.arr a), "dump", [] =>
+        (w, s!"dump size={w.sz} used={a.data.length} count={a.count} data={toHexTok a.data.flatten}")
+      | some (.str tb), "index", [x] =>
+        match fromHex x with
+        | some x => let (tb', r) := strStep tb (.index x); (put i (.str tb'), s!"index 0 {r.1}")
+        | none => (w, "bad-op")
+      | some (.str tb), "str", [n] =>
+        match n.toNat? with
+        | some n => let (_, r) := strStep tb (.str n); (w, s!"str {match r.2 with | some b => toHexTok b | none => "null"}")
+        | none => (w, "bad-op")
+      | some (.str tb), "ref", [n] =>
+        match n.toNat? with
+        | some n => (put i (.str (strStep tb (.ref n)).1), "ref")
+        | none => (w, "bad-op")
+      | some (.str tb), "unref", [n] =>
+        match n.toNat? with
+        | some n => (put i (.str (strStep tb (.unref n)).1), "unref")
+        | none => (w, "bad-op")
+      | some (.str tb), "count", [n] =>
+        match n.toNat? with
+        | some n => (w, s!"count {(strStep tb (.count n)).2.1}")
+        | none => (w, "bad-op")
+      | some (.str tb), "dump", [] =>
+        let bs := (List.range tb.length).zip tb |>.map fun (i, b) => s!"{i}:{b.refs}:{toHexTok b.str}"
+        (w, s!"dump next={tb.length} b={if bs.isEmpty then "-" else commaSep bs}")
+      | _, _, _ => (w, "bad-op")
+  | _ => (w, "bad-op")
 
 def run (args : List String) : IO Unit := do
   let out ← IO.getStdout
@@ -345,6 +548,7 @@ def run (args : List String) : IO Unit := do
     stateLoop (← IO.getStdin) out (step fun k => if cur.contains k then descCurrent k else desc k) World.init
   | ["tbl"] => stateLoop (← IO.getStdin) out Kinds.tblStep Kinds.TblWorld.init
   | ["copystate"] => lineLoop (← IO.getStdin) out copyStep
+  | ["unit"] => stateLoop (← IO.getStdin) out unitStep UWorld.init
   | _ => stateLoop (← IO.getStdin) out (step desc) World.init
 
 end Driver.C19
